@@ -807,6 +807,80 @@ fn hook_json() -> Value {
     }
 }
 
+fn dispatch(cfg: &Value) -> Value {
+    match cfg["scenario"].as_str().unwrap_or("batch") {
+        "batch" => run_batch(cfg),
+        "codec" => codec::run_codec(cfg),
+        "adversarial" => codec::run_adversarial(cfg),
+        "odd_statement" => codec::run_odd_statement(cfg),
+        "ctor" => codec::run_ctor(cfg),
+        "gens" => codec::run_gens(cfg),
+        "history" => run_history(cfg),
+        #[cfg(not(feature = "model"))]
+        "zeroize" => run_zeroize(cfg),
+        #[cfg(not(feature = "model"))]
+        "threads" => run_threads(cfg),
+        other => json!({"error": format!("unknown scenario {}", other)}),
+    }
+}
+
+/// C18: a sequence of calls in ONE process (one address space, one set of statics / caches / thread-locals): every step is an ordinary
+/// scenario; the outputs of all steps are returned so that a step can be compared with the same step run first in a fresh process
+fn run_history(cfg: &Value) -> Value {
+    let mut outs = Vec::new();
+    for st in cfg["steps"].as_array().cloned().unwrap_or_default() {
+        let ev0 = env::events_len();
+        let o = match catch_unwind(AssertUnwindSafe(|| dispatch(&st))) {
+            Ok(o) => o,
+            Err(_) => json!({"panic": true}),
+        };
+        outs.push(json!({"out": o, "events": [ev0, env::events_len()]}));
+    }
+    json!({"steps": outs})
+}
+
+/// C18, REAL flavour only (concrete companion, decides nothing on its own): the same deterministic call made by `threads` threads that are
+/// released together by a barrier, so that the first use of every lazily initialised static and of the shared parameter object races;
+/// every thread's bytes are compared with the bytes of the first one, over `rounds` rounds in this process (only round 0 races the statics)
+#[cfg(not(feature = "model"))]
+fn run_threads(cfg: &Value) -> Value {
+    use std::sync::{Arc, Barrier};
+    let nthreads = cfg["threads"].as_u64().unwrap_or(8) as usize;
+    let rounds = cfg["rounds"].as_u64().unwrap_or(4) as usize;
+    let step = cfg["step"].clone();
+    let mut diffs = Vec::new();
+    let mut reference: Option<String> = None;
+    for round in 0..rounds {
+        let barrier = Arc::new(Barrier::new(nthreads));
+        let handles: Vec<_> = (0..nthreads)
+            .map(|_| {
+                let b = barrier.clone();
+                let st = step.clone();
+                std::thread::spawn(move || {
+                    b.wait();
+                    let o = match catch_unwind(AssertUnwindSafe(|| dispatch(&st))) {
+                        Ok(o) => o,
+                        Err(_) => json!({"panic": true}),
+                    };
+                    json!({"prove": o["prove"], "verify": o["verify"], "verify_each": o["verify_each"], "gens": o["gens"], "panic": o["panic"]}).to_string()
+                })
+            })
+            .collect();
+        for (ti, h) in handles.into_iter().enumerate() {
+            let got = h.join().unwrap_or_else(|_| "thread panicked".to_string());
+            match &reference {
+                None => reference = Some(got),
+                Some(r) => {
+                    if *r != got && diffs.len() < 4 {
+                        diffs.push(json!({"round": round, "thread": ti, "reference": r.chars().take(600).collect::<String>(), "got": got.chars().take(600).collect::<String>()}));
+                    }
+                },
+            }
+        }
+    }
+    json!({"threads": nthreads, "rounds": rounds, "differences": diffs, "reference": reference})
+}
+
 fn main() {
     let arg = std::env::args().nth(1).expect("scenario json");
     let cfg: Value = if let Some(path) = arg.strip_prefix('@') {
@@ -815,16 +889,6 @@ fn main() {
         serde_json::from_str(&arg).expect("json")
     };
     env::install_panic_hook();
-    let out = match cfg["scenario"].as_str().unwrap_or("batch") {
-        "batch" => run_batch(&cfg),
-        "codec" => codec::run_codec(&cfg),
-        "adversarial" => codec::run_adversarial(&cfg),
-        "odd_statement" => codec::run_odd_statement(&cfg),
-        "ctor" => codec::run_ctor(&cfg),
-        "gens" => codec::run_gens(&cfg),
-        #[cfg(not(feature = "model"))]
-        "zeroize" => run_zeroize(&cfg),
-        other => json!({"error": format!("unknown scenario {}", other)}),
-    };
+    let out = dispatch(&cfg);
     println!("{}", json!({"flavour": env::FLAVOUR, "config": cfg, "out": out, "core": env::dump()}));
 }
